@@ -96,17 +96,19 @@ class Probe:
         self.world.sim_config["Desc"] = {"python": "mc.stubs:DescSim"}
         self.n = 0
 
-    def classify(self, desc, typ, Uplus):
+    def classify(self, desc, typ, Uplus, child=False):
         from mosaik.exceptions import ScenarioError
         w = self.world
         self.n += 1
         with warnings.catch_warnings():
             warnings.simplefilter("ignore")
             try:
-                fac = w.start("Desc", sim_id=f"d{self.n}", desc=desc, type=typ)
+                fac = w.start("Desc", sim_id=f"d{self.n}", desc=desc, type=typ, child=child)
             except (ValueError, ScenarioError) as e:
                 return ("reject", type(e).__name__ + ": " + str(e)[:120])
             ent = fac.M()
+            if child:
+                ent = ent.children[0]
             P, Q = self.run.ents["P"], self.run.ents["Q"]
             nt, tr, pe, npe = set(), set(), set(), set()
             for x in Uplus:
@@ -159,13 +161,25 @@ def descriptions(U):
             yield d
 
 
-def judge(probe, desc, typ, Uplus):
+def judge(probe, desc, typ, Uplus, child=False):
     try:
         ref = reference(desc, typ, Uplus)
     except Reject as e:
         ref = ("reject", str(e))
-    obs = probe.classify(desc, typ, Uplus)
+    try:
+        obs = probe.classify(desc, typ, Uplus, child)
+    except Exception as e:  # noqa: BLE001
+        if not child:
+            raise
+        # start() accepted the simulator, the error only comes out of create()
+        obs = ("ok-then-create-failed", type(e).__name__ + ": " + str(e)[:120])
     case = dict(desc=desc, type=typ, universe=list(Uplus))
+    if child:
+        case["child"] = True
+    if obs[0] == "ok-then-create-failed":
+        return [dict(prop="C12", kind="bad-description-accepted" if ref[0] == "reject" else "good-description-rejected",
+                     cls=None, msg=f"the description of a non-public (child) model passed start(); "
+                                   f"creating the entity then failed with {obs[1]}: {case}", case=case)]
     if obs[0] == "inconsistent":
         return [dict(prop="C12", kind="inconsistent-classification", cls=None,
                      msg=f"{obs[1]}: {case}", case=case)]
@@ -188,7 +202,8 @@ def judge(probe, desc, typ, Uplus):
 
 
 def _work(args):
-    U, chunk = args
+    U, chunk = args[:2]
+    child = len(args) > 2 and args[2]
     Uplus = list(U) + [W]
     probe = Probe()
     out = []
@@ -198,7 +213,7 @@ def _work(args):
             if probe.n >= 400:          # keep the probing world small
                 probe.close()
                 probe = Probe()
-            v = judge(probe, desc, typ, Uplus)
+            v = judge(probe, desc, typ, Uplus, child)
             n += 1
             out.extend(v)
             try:
@@ -270,7 +285,7 @@ def replay(doc):
         return 1 if v else 0
     probe = Probe()
     try:
-        v = judge(probe, c["desc"], c["type"], c["universe"])
+        v = judge(probe, c["desc"], c["type"], c["universe"], bool(c.get("child")))
     finally:
         probe.close()
     for x in v:
@@ -283,6 +298,10 @@ def check(prop, tier):
     U = ["a", "b", "c"]
     cases = [(d, t) for d in descriptions(U) for t in TYPES]
     chunks = [(U, cases[i:i + 300]) for i in range(0, len(cases), 300)]
+    # the same descriptions as a NON-PUBLIC model that is the type of a child entity
+    U2 = U if tier == "thorough" else ["a", "b"]
+    cases2 = [(d, t) for d in descriptions(U2) for t in TYPES]
+    chunks += [(U2, cases2[i:i + 300], True) for i in range(0, len(cases2), 300)]
     rep = findings.Reporter("C12")
     kinds = {}
     total = rejected = 0
